@@ -106,6 +106,17 @@ def runner(rep, tier, seed, replay):
             raise ToolError("JobControl model violates an invariant (%s):\n%s" % (cfg, r.violation[:2000]))
         check_action_coverage(r, ["Launch", "FgStep", "Poll", "Builtin", "Resume"])
         rep.add_tlc(r)
+    # (M) how a pipeline gets its process group and the terminal (spec/Launch.tla): every interleaving of the shell's fork /
+    # setpgid / tcsetpgrp calls with the children's own setpgid; "child-only" (core.rs as pinned) is the negative control
+    rl = run_tlc("Launch", "Launch_both")
+    if rl.violation:
+        raise ToolError("Launch model (parent and child call setpgid) violates C07:\n" + rl.violation[:1500])
+    check_action_coverage(rl, ["Fork", "ParentSetpgid", "GiveTerminal", "ChildSetpgid", "ChildExec"])
+    rep.add_tlc(rl)
+    rc = run_tlc("Launch", "Launch_child", coverage=False)
+    rep.add_tlc(rc)
+    if not rc.violation:
+        raise ToolError("negative control failed: with only the children calling setpgid the Launch model satisfies C07")
     nsess = 10 if tier == "quick" else 150
     rnd = random.Random(seed)
     plans = [(rnd.randrange(1 << 30), rnd.randint(5, 25)) for _ in range(nsess)]
